@@ -83,8 +83,8 @@ def k7_part(ctx: vlib.Ctx):
             ctx.not_shown("translation validation K7", str([flagsets[i] for i in bad[:5]]))
 
 
-def k43_part(ctx: vlib.Ctx):
-    """kernel K43 (emission of unpack_named_tuple): theorems + validation of the translation against the code the real
+def k45_part(ctx: vlib.Ctx):
+    """kernel K45 (emission of unpack_named_tuple): theorems + validation of the translation against the code the real
     generator produces for random NamedTuple classes in both forms (helper text captured at its exec, direct call read from
     the decoder's source)"""
     import builtins
@@ -93,10 +93,10 @@ def k43_part(ctx: vlib.Ctx):
     import mashumaro.core.meta.types.unpack as _unpack
     from mashumaro.codecs.basic import BasicDecoder
     from mashumaro.dialect import Dialect
-    ctx.theorems("props/C03_ntdict_kernel.vo", ["C03_named_code_is_model", "C03_ntdict_code_is_model"], kernels=["K43"])
-    ctx.trusted += ["tools/kernels/k43_namedtuple_emit.py (translator of the emission part of unpack_named_tuple: statement texts compared exactly, branch structure read "
+    ctx.theorems("props/C03_ntdict_kernel.vo", ["C03_named_code_is_model", "C03_ntdict_code_is_model"], kernels=["K45"])
+    ctx.trusted += ["tools/kernels/k45_namedtuple_emit.py (translator of the emission part of unpack_named_tuple: statement texts compared exactly, branch structure read "
                     "from the AST; validated each run against the code generated for random NamedTuple classes); NtEmit.v run_code = semantics of the emitted statements"]
-    if not ctx.kernel_report.get("K43", {}).get("ok"):
+    if not ctx.kernel_report.get("K45", {}).get("ok"):
         return
     rng = ctx.rng
     cases, info = [], []
@@ -125,7 +125,7 @@ def k43_part(ctx: vlib.Ctx):
         try:
             BasicDecoder(ns["N"], default_dialect=dia)
         except Exception as e:
-            ctx.not_shown("kernel K43 validation", f"{src}: {type(e).__name__}: {e}"[:300])
+            ctx.not_shown("kernel K45 validation", f"{src}: {type(e).__name__}: {e}"[:300])
             continue
         finally:
             for m_, o_ in ((_unpack, olds[0]), (_builder, olds[1])):
@@ -164,24 +164,24 @@ def k43_part(ctx: vlib.Ctx):
         df = "[" + "; ".join(vlib.coq_str(x) for x in defaulted) + "]"
         cases.append(f"((({'true' if as_dict else 'false'}, {nm}), {df}), ({idx}, {code}))")
         info.append((as_dict, names, defaulted, idx, code))
-        ctx.count(("k43", as_dict, n, ndef))
+        ctx.count(("k45", as_dict, n, ndef))
         gen.dispose_module(ns) if hasattr(gen, "dispose_module") else None
     defs = ("Definition idx_eqb (a b: nt_idx) : bool := match a, b with IName x, IName y => String.eqb x y | IPos x, IPos y => Nat.eqb x y | _, _ => false end.\n"
             "Definition line_eqb (a b: nt_line) : bool := match a, b with NLSet x, NLSet y | NLSetIf x, NLSetIf y => String.eqb x y | NLAppend, NLAppend => true | _, _ => false end.\n"
             "Fixpoint leqb {A} (e: A -> A -> bool) (a b: list A) : bool := match a, b with [], [] => true | x :: r, y :: s => e x y && leqb e r s | _, _ => false end.\n"
             "Definition code_eqb (a b: nt_code) : bool := match a, b with NCCall, NCCall => true | NCKw x, NCKw y | NCTry x, NCTry y => leqb line_eqb x y | _, _ => false end.\n")
     okf = ("fun c => match c with (((ad, names), dfl), (ix, code)) => "
-           "leqb idx_eqb (k43_indices ad names) ix && "
-           "code_eqb (k43_code ad (match dfl with [] => true | _ => false end) (fun n => str_mem n dfl) names) code end")
-    bad, log = vlib.coq_bad_idx("c03_k43", "Core TyModel NtEmit", "From VerifGen Require Import K43.", defs, cases, okf,
-                                "((bool * list string) * list string) * (list nt_idx * nt_code)", shard=400, needs=["gen/K43.vo", "theories/NtEmit.vo"])
+           "leqb idx_eqb (k45_indices ad names) ix && "
+           "code_eqb (k45_code ad (match dfl with [] => true | _ => false end) (fun n => str_mem n dfl) names) code end")
+    bad, log = vlib.coq_bad_idx("c03_k45", "Core TyModel NtEmit", "From VerifGen Require Import K45.", defs, cases, okf,
+                                "((bool * list string) * list string) * (list nt_idx * nt_code)", shard=400, needs=["gen/K45.vo", "theories/NtEmit.vo"])
     if bad is None:
-        ctx.correspondence("K43-translation-vs-generated-source", len(cases), -1, log)
-        ctx.not_shown("translation validation K43", log)
+        ctx.correspondence("K45-translation-vs-generated-source", len(cases), -1, log)
+        ctx.not_shown("translation validation K45", log)
     else:
-        ctx.correspondence("K43-translation-vs-generated-source", len(cases), len(bad), str([info[i] for i in bad[:4]])[:600])
+        ctx.correspondence("K45-translation-vs-generated-source", len(cases), len(bad), str([info[i] for i in bad[:4]])[:600])
         if bad:
-            ctx.not_shown("translation validation K43", str([info[i] for i in bad[:4]])[:600])
+            ctx.not_shown("translation validation K45", str([info[i] for i in bad[:4]])[:600])
 
 
 def probe(ctx, t, fam, ns, dec, d, nontrivial, entry="codec_decode"):
@@ -343,7 +343,7 @@ def run(ctx: vlib.Ctx):
 
     ctx.theorems("props/C03_ntdict.vo", ["C03_ntdict_unpack_ref", "C03_ntdict_strict_or_same", "C03_ntdict_unpack_ref_partial", "C03_ntdict_well_typed", "C03_ntdict_missing_key"])
     k7_part(ctx)
-    k43_part(ctx)
+    k45_part(ctx)
     ctx.coqchk(["VerifProps.C03_unpack", "VerifProps.C03_tuple_kernel", "VerifProps.C03_ntdict", "VerifProps.C03_ntdict_kernel"])
     cases, bad, log = tycorr.run(ctx, "c03_ty", ctx.budget(60, 400), 2, depth=3, foreign=4)
     hits = tyoracle.report_corr(ctx, "TyModel.uk/ref_dec vs BasicDecoder.decode", cases, bad, log, want="dec")
